@@ -10,7 +10,7 @@ The wrapper exists in two modelled variants (Cur = as in the repository, Fix = f
 Which one the implementation under test is, is decided by replaying the three-call witness of
 theorem C11_refuted_renumber_old on the real class; the correspondence then uses that variant.
 The *property* is always judged on the implementation's own outputs."""
-import io, os, gzip, zipfile, shutil, itertools, json
+import io, os, sys, gzip, zipfile, shutil, itertools, json
 from harness import core, coqio
 from pyasn1 import error
 from pyasn1.type import univ, namedtype, base, tag
@@ -49,35 +49,72 @@ class RawNS(object):
         return self._take(n)
 
 
-class RawShort(RawNS):
-    """non-seekable reader that delivers fewer octets than asked (at least one while any is left)"""
-    def __init__(self, b, limits):
+class RawPackets(RawNS):
+    """non-seekable reader whose data arrives in packets: a read never crosses the end of the
+    packet it starts in (short reads).  With `nonepat`, call k answers None ("no data yet",
+    non-blocking stream) when nonepat[k % len] is set and data is still to come."""
+    def __init__(self, b, bounds, nonepat=None):
         RawNS.__init__(self, b)
-        self._limits = limits
+        self._bounds, self._nonepat = bounds, nonepat
 
     def read(self, n=-1):
         self.calls += 1
-        if n is None or n < 0:
-            n = len(self._b) - self._p
-        return self._take(min(n, self._limits[self.calls % len(self._limits)]))
-
-
-class RawNonBlocking(RawNS):
-    """non-seekable non-blocking reader: now and then answers None ("no data yet") while data
-    is still to come; never at the end of the data (the end is reported as b'')"""
-    def __init__(self, b, pattern):
-        RawNS.__init__(self, b)
-        self._pattern = pattern
-
-    def read(self, n=-1):
-        self.calls += 1
-        if n is None or n < 0:
-            n = len(self._b) - self._p
-        k = self._pattern[self.calls % len(self._pattern)]
-        if k == 0 and not self.exhausted() and n:
+        if self.exhausted():
+            return b''
+        if self._nonepat and self._nonepat[self.calls % len(self._nonepat)] and n:
             self.nones += 1
             return None
-        return self._take(min(n, k) if k else n)
+        end = next(e for e in self._bounds if e > self._p)
+        if n is None or n < 0:
+            n = end - self._p
+        return self._take(min(n, end - self._p))
+
+
+class SeekPackets(object):
+    """the seekable twin of RawPackets: a seekable stream (deliberately not an io.BytesIO) that
+    holds everything that has arrived so far and obtains more, packet by packet, exactly when a
+    read goes beyond it.  Same delivery schedule, no CachingStreamWrapper involved."""
+    def __init__(self, b, bounds, nonepat=None):
+        self._src = RawPackets(b, bounds, nonepat)
+        self._b, self._p, self._a = bytes(b), 0, 0
+
+    nones = property(lambda self: self._src.nones)
+
+    def seekable(self):
+        return True
+
+    def exhausted(self):
+        return self._src.exhausted()
+
+    def tell(self):
+        return self._p
+
+    def seek(self, n, whence=os.SEEK_SET):
+        if whence == os.SEEK_SET:
+            if n < 0:
+                raise ValueError('negative seek value %d' % n)
+            self._p = n
+        elif whence == os.SEEK_CUR:
+            self._p = max(0, self._p + n)
+        else:
+            self._p = max(0, self._a + n)
+        return self._p
+
+    def read(self, n=-1):
+        if n is not None and n > sys.maxsize:       # what every CPython stream does (Py_ssize_t)
+            raise OverflowError('Python int too large to convert to C ssize_t')
+        have = self._b[self._p:self._a] if n is None or n < 0 else self._b[self._p:min(self._p + n, self._a)]
+        self._p += len(have)
+        if n is not None and n >= 0:
+            n -= len(have)
+            if not n:
+                return have
+        more = self._src.read(n)
+        if more is None:
+            return have or None
+        self._a += len(more)
+        self._p += len(more)
+        return have + more
 
 
 class AbsPosWrapper(streaming.CachingStreamWrapper):
@@ -119,6 +156,15 @@ def impl_variant():
     if (t, m) == (0, 0):
         return 'Cur'
     return 'other:%r' % ((t, m),)
+
+
+def impl_f05_fixed():
+    """does read() survive a None from the raw stream (fixes/F05.diff) or raise TypeError?"""
+    w = streaming.CachingStreamWrapper(RawPackets(b'abc', [3], [True]))
+    try:
+        return w.read(2) is None
+    except TypeError:
+        return False
 
 
 # ------------------------------------------------------------------------------------------------
@@ -244,9 +290,10 @@ def run_wrapper(w, ops):
     return outs
 
 
-def run_bytesio(s, ops):
+def run_bytesio(s, ops, init=True):
     """the same calls on io.BytesIO; peek = read and seek back, as peekIntoStream does it"""
-    s.markedPosition = 0
+    if init:
+        s.markedPosition = 0
     outs = []
     for o in ops:
         k = o[0]
@@ -254,7 +301,7 @@ def run_bytesio(s, ops):
         elif k == 'readall': outs.append(_guard(lambda: s.read()))
         elif k == 'peek':
             def pk():
-                p = s.tell(); r = s.read(o[1]); s.seek(p); return r
+                p = s.tell(); r = s.read(o[1]); s.seek(p); return r     # a None answer leaves the position alone
             outs.append(_guard(pk))
         elif k == 'seek': outs.append(_guard(lambda: s.seek(o[1], os.SEEK_SET)))
         elif k == 'back': outs.append(_guard(lambda: s.seek(-o[1], os.SEEK_CUR)))
@@ -272,11 +319,12 @@ def coq_ops(ops):
     return coqio.clist([m[o[0]] % o[1] if o[0] in m else c[o[0]] for o in ops])
 
 
-def coq_outs(outs):
+def coq_outs(outs, ops=None):
     items = []
-    for x in outs:
+    for i, x in enumerate(outs):
         if isinstance(x, bytes): items.append('EBytes %s' % coqio.cbytes(x))
-        elif x is None: items.append('ENone')
+        elif x is None: items.append('ENoData' if ops is not None and ops[i][0] in ('read', 'readall', 'peek') else 'ENone')
+        elif x == 'crash:TypeError' and ops is not None and ops[i][0] in ('read', 'readall', 'peek'): items.append('ETypeError')
         elif x == 'ValueError': items.append('EErr')
         elif isinstance(x, int) and not isinstance(x, bool) and x >= 0: items.append('ENum %d' % x)
         else: return None           # a crash or an answer outside the model's vocabulary
@@ -286,6 +334,18 @@ def coq_outs(outs):
 def show_outs(outs):
     return [('%d octets %s..' % (len(x), x[:8].hex())) if isinstance(x, bytes) and len(x) > 16 else
             (x.hex() if isinstance(x, bytes) else x) for x in outs]
+
+
+def hist_expr(variant, data, ops, wo, so, permitted, nodrop, split=False):
+    """closed Coq boolean(s): wrapper model = wrapper, seekable model = BytesIO, predicates agree"""
+    head = 'let d := %s in let o := %s in ' % (coqio.cbytes(data), coq_ops(ops))
+    three = ['wrapper_matches %s default_buffer_size d o %s' % (variant, coq_outs(wo)),
+             'seekable_matches d o %s' % coq_outs(so),
+             'Bool.eqb (permittedb (s_init d) o) %s && Bool.eqb (nodropb (N.to_nat default_buffer_size) (s_init d) o) %s'
+             % (coqio.cbool(permitted), coqio.cbool(nodrop))]
+    if split:
+        return [head + t for t in three]
+    return head + ' && '.join('(%s)' % t for t in three)
 
 
 def histories(ctx, variant):
@@ -309,7 +369,7 @@ def histories(ctx, variant):
         wild = rng.random() < 0.2
         cases.append(('wild' if wild else 'random', seg_data(rng, size), gen_history(rng, size, nops, wild)))
 
-    exprs, meta, defs, dnames = [], [], [], {}
+    exprs, meta = [], []
     nword_coq = ctx.n(150, len(words))
     word_pick = set(rng.sample(range(len(words)), min(nword_coq, len(words))))
     wi = -1
@@ -347,25 +407,139 @@ def histories(ctx, variant):
         if cw is None or cs is None:
             ctx.stats['hist_outside_model_vocabulary'] += 1
             continue
-        if data not in dnames:
-            dnames[data] = 'd%d' % len(dnames)
-            defs.append('Definition %s : bytes := %s.' % (dnames[data], coqio.cbytes(data)))
-        d, o = dnames[data], coq_ops(ops)
-        exprs.append('wrapper_matches %s default_buffer_size %s %s %s' % (variant, d, o, cw))
-        meta.append(('wrapper model (variant %s) and CachingStreamWrapper disagree' % variant, case))
-        exprs.append('seekable_matches %s %s %s' % (d, o, cs))
-        meta.append(('seekable-stream model and io.BytesIO disagree', case))
-        exprs.append('Bool.eqb (permittedb (s_init %s) %s) %s && Bool.eqb (nodropb (N.to_nat default_buffer_size) (s_init %s) %s) %s'
-                     % (d, o, coqio.cbool(permitted), d, o, coqio.cbool(nodrop)))
-        meta.append(('permitted / no-drop predicates of the model and of the harness disagree', case))
+        exprs.append(hist_expr(variant, data, ops, wo, so, permitted, nodrop))
+        meta.append(case)
     if exprs:
         exprs.append('N.eqb default_buffer_size %d' % BUF)
-        meta.append(('Gen.Tables.default_buffer_size differs from io.DEFAULT_BUFFER_SIZE', {'kind': 'const'}))
-        for i in core.coq_bools('c11', IMPORTS, exprs, defs='\n'.join(defs), shard=60):
-            ctx.corr_fail(meta[i][0], meta[i][1])
+        meta.append({'kind': 'const', 'what': 'Gen.Tables.default_buffer_size differs from io.DEFAULT_BUFFER_SIZE'})
+        bad = core.coq_bools('c11', IMPORTS, exprs, shard=max(10, min(80, len(exprs) // (2 * core.NPROC) + 1)))
         ctx.stats['hist_model_evaluations'] += len(exprs)
+        # which of the three comparisons of a disagreeing case failed
+        parts, pmeta = [], []
+        for i in bad:
+            case = meta[i]
+            if case.get('kind') == 'const':
+                ctx.corr_fail(case['what'], case)
+                continue
+            data, ops = _unpack(case['data_hex_gz']), [tuple(o) for o in case['ops']]
+            wo = run_wrapper(streaming.CachingStreamWrapper(RawNS(data)), ops)
+            so = run_bytesio(io.BytesIO(data), ops)
+            three = hist_expr(variant, data, ops, wo, so, case['permitted'], case['cache_drop_at_op'] is None, split=True)
+            parts += three
+            pmeta += [('wrapper model (variant %s) and CachingStreamWrapper disagree' % variant, case),
+                      ('seekable-stream model and io.BytesIO disagree', case),
+                      ('permitted / no-drop predicates of the model and of the harness disagree', case)]
+        for j in core.coq_bools('c11d', IMPORTS, parts, shard=30):
+            ctx.corr_fail(pmeta[j][0], pmeta[j][1])
     ctx.sample({'history': cases[0][2], 'size': len(cases[0][1])})
     ctx.sample({'history': cases[-1][2][:12], 'size': len(cases[-1][1])})
+
+
+def gen_packet_history(rng, data, bounds, nonepat, nops, wild):
+    """permitted history generated while running the seekable twin (positions depend on what
+    the source delivers); returns (ops, twin outputs, permitted?, first dropping mark or None)"""
+    twin = SeekPackets(data, bounds, nonepat)
+    twin.markedPosition = 0
+    ops, permitted, first_drop, off = [], True, None, 0
+    for i in range(nops):
+        pos, mark = twin.tell(), twin.markedPosition
+        r = rng.random()
+        if r < 0.4:
+            o = ('read', rng.choice(READS) if rng.random() < 0.8 else rng.randrange(0, 2 * BUF))
+        elif r < 0.5:
+            o = ('peek', rng.choice(READS))
+        elif r < 0.65:
+            v = pos if not (wild and rng.random() < 0.3) else rng.randrange(0, pos + 3)
+            o = ('mark', v)
+            permitted &= v == pos
+            if first_drop is None and pos > BUF:
+                first_drop = i
+        elif r < 0.75:
+            o = ('tell',)
+        elif r < 0.8:
+            o = ('getmark',)
+        elif r < 0.9:
+            lo, hi = (0, pos + 2) if wild and rng.random() < 0.5 else (min(mark, pos), pos)
+            o = ('seek', rng.choice([lo, hi, rng.randint(lo, hi)]))
+            permitted &= mark <= o[1] <= pos
+        elif r < 0.98:
+            room = max(0, pos - mark) if not (wild and rng.random() < 0.5) else pos + 2
+            o = ('back', min(room, rng.choice([0, 1, 2, 17, room])))
+            permitted &= mark + o[1] <= pos
+        else:
+            o = ('readall',)
+        ops.append(o)
+        run_bytesio_step(twin, o)
+    return ops, permitted, first_drop
+
+
+def run_bytesio_step(s, o):
+    return run_bytesio(s, [o], init=False)[0]
+
+
+def packet_histories(ctx, variant, f05):
+    """the wrapper over a raw stream that delivers in packets and answers None now and then,
+    against the seekable twin with the same delivery schedule (theorem C11_wrapper_refines_any_raw)"""
+    rng = ctx.rng
+    exprs, meta = [], []
+    for i in range(ctx.n(100, 1000)):
+        size = min(rng.choice(SIZES) if rng.random() < 0.7 else rng.randrange(0, 4 * BUF), 35000)
+        data = seg_data(rng, size)
+        pool = [1, 2, 3, 7, 64, 500, 1000, 3000, BUF - 1, BUF, BUF + 1, 2 * BUF + 5]
+        cyc = [rng.choice(pool) for _ in range(rng.randrange(1, 5))]
+        if size > 3000 and max(cyc) < 64:
+            cyc.append(1000)
+        bounds, sizes, e, k = [], [], 0, 0
+        while e < size:
+            sizes.append(cyc[k % len(cyc)]); e = min(size, e + sizes[-1]); bounds.append(e); k += 1
+        nonepat = [rng.random() < 0.35 for _ in range(rng.randrange(1, 7))] if rng.random() < 0.7 else [False]
+        nops = rng.randrange(1, 61 if ctx.tier != 'thorough' else 121)
+        wild = rng.random() < 0.15
+        ops, permitted, first_drop = gen_packet_history(rng, data, bounds, nonepat, nops, wild)
+        so = run_bytesio(SeekPackets(data, bounds, nonepat), ops)
+        raw = RawPackets(data, bounds, nonepat)
+        wo = run_wrapper(streaming.CachingStreamWrapper(raw), ops)
+        ctx.case(('packets', data, tuple(ops), tuple(sizes), tuple(nonepat)), first_drop is not None or raw.nones > 0)
+        ctx.stats['pkt_histories'] += 1
+        ctx.stats['pkt_permitted' if permitted else 'pkt_not_permitted'] += 1
+        ctx.stats['pkt_with_cache_drop'] += first_drop is not None
+        ctx.stats['pkt_with_none_answers'] += raw.nones > 0
+        ctx.stats['pkt_ops'] += len(ops)
+        case = {'kind': 'packet-history', 'data_hex_gz': _pack(data), 'size': size, 'packet_sizes': sizes[:50], 'packet_cycle': cyc,
+                'none_pattern': nonepat, 'ops': [list(o) for o in ops], 'permitted': permitted, 'cache_drop_at_op': first_drop,
+                'variant': variant, 'f05_fixed': f05}
+        if permitted and wo != so:
+            k = next(j for j in range(len(ops)) if wo[j] != so[j])
+            fid = None
+            if wo[k] == 'crash:TypeError' and raw.nones > 0:
+                fid = 'F05'
+            elif first_drop is not None and k > first_drop:
+                fid = 'F06'
+            elif any(x == 'crash:TypeError' for x in wo[:k]):
+                fid = 'F05'          # aftermath of the failed read: the cache position had already moved
+            ctx.prop_fail('CachingStreamWrapper over a raw stream with short reads / None answers differs from a seekable stream '
+                          'with the same delivery schedule%s' % {'F05': ' (None from raw.read -> TypeError)',
+                                                                  'F06': ' (after the cache was dropped)', None: ''}[fid],
+                          dict(case, first_difference={'op_index': k, 'op': list(ops[k]), 'wrapper': show_outs([wo[k]])[0],
+                                                       'twin': show_outs([so[k]])[0]}), finding=fid)
+        if getattr(ctx, 'search_only', False) or variant not in ('Cur', 'Fix'):
+            continue
+        cw, cs = coq_outs(wo, ops), coq_outs(so, ops)
+        if cw is None or cs is None:
+            ctx.stats['pkt_outside_model_vocabulary'] += 1
+            continue
+        flags = [nonepat[j % len(nonepat)] for j in range(1, len(ops) + 3)]
+        exprs.append('let r := mkPraw (cut %s %s) %s in let o := %s in '
+                     '(gwrapper_matches %s %s default_buffer_size r o %s) && (fseekable_matches r o %s) '
+                     '&& Bool.eqb (gpermittedb pread (f_init r) o) %s'
+                     % (coqio.clist(['%d' % x for x in sizes]), coqio.cbytes(data), coqio.clist([coqio.cbool(x) for x in flags]),
+                        coq_ops(ops), coqio.cbool(f05), variant, cw, cs, coqio.cbool(permitted)))
+        meta.append(case)
+    if exprs:
+        for i in core.coq_bools('c11p', IMPORTS, exprs, shard=max(5, min(60, len(exprs) // (2 * core.NPROC) + 1))):
+            ctx.corr_fail('any-raw wrapper model (variant %s, F05 %s) / seekable reference model disagree with CachingStreamWrapper / '
+                          'the harness twin' % (variant, 'fixed' if f05 else 'unfixed'), meta[i])
+        ctx.stats['pkt_model_evaluations'] += len(exprs)
 
 
 def _pack(b):
@@ -399,11 +573,7 @@ def absval(v):
             return (cls, tags, v.getName(), absval(v.getComponent()))
         except Exception as e:
             return (cls, tags, 'unset')
-    if isinstance(v, (univ.SequenceOf, univ.SetOf)):
-        return (cls, tags, tuple(absval(x) for x in v.components)) if v.isValue else (cls, tags, 'novalue')
-    if isinstance(v, (univ.Sequence, univ.Set)):
-        if not v.isValue and not len(v):
-            return (cls, tags, 'novalue')
+    if isinstance(v, (univ.SequenceOf, univ.SetOf, univ.Sequence, univ.Set)):
         comps = []
         for i in range(len(v)):
             c = v.getComponentByPosition(i, default=None, instantiate=False)
@@ -438,7 +608,8 @@ def _hide(x):
 class Kinds(object):
     """factories of substrates presenting the same octets"""
     NAMES = ['bytes', 'BytesIO', 'OctetString', 'Any', 'file', 'gzip', 'zip', 'nonseekable']
-    STREAM_ONLY = ['nonseekable-short-reads', 'nonseekable-nonblocking']
+    # (kind, the seekable stream it is compared with): same delivery schedule on both sides
+    STREAM_ONLY = [('nonseekable-packets', 'seekable-packets'), ('nonseekable-nonblocking', 'seekable-nonblocking')]
 
     def __init__(self, workdir, rng):
         self.dir, self.rng, self.k = workdir, rng, 0
@@ -459,8 +630,19 @@ class Kinds(object):
         self.zp = self.path + '.zip'
         with zipfile.ZipFile(self.zp, 'w', zipfile.ZIP_DEFLATED) as z:
             z.writestr('member.bin', b)
-        self.short_limits = [self.rng.choice([1, 2, 3, 7, 64, 1000, BUF, BUF + 1]) for _ in range(self.rng.randrange(1, 6))]
-        self.nb_pattern = [self.rng.choice([0, 0, 1, 5, 200, BUF, 3 * BUF]) for _ in range(self.rng.randrange(2, 7))] + [7]
+        pool = [1, 2, 3, 7, 64, 500, 1000, BUF - 1, BUF, BUF + 1] if len(b) < 3000 else [64, 500, 1000, 3000, BUF - 1, BUF, BUF + 1]
+        self.packet_sizes = [self.rng.choice(pool) for _ in range(self.rng.randrange(1, 5))]
+        if self.rng.random() < 0.3:
+            self.packet_sizes.append(self.rng.choice([1, 2, 3, 7]))
+        self.none_pattern = [self.rng.random() < 0.4 for _ in range(self.rng.randrange(2, 7))] + [False]
+        self.set_schedule(self.packet_sizes, self.none_pattern)
+
+    def set_schedule(self, packet_sizes, none_pattern):
+        self.packet_sizes, self.none_pattern = packet_sizes, none_pattern
+        self.bounds, e, i = [], 0, 0
+        while e < len(self.b):
+            e = min(len(self.b), e + packet_sizes[i % len(packet_sizes)]); i += 1
+            self.bounds.append(e)
 
     def cleanup(self):
         for p in (self.path, self.gz, self.zp):
@@ -482,12 +664,16 @@ class Kinds(object):
             z = zipfile.ZipFile(self.zp); f = z.open('member.bin'); return f, [f, z], None
         if kind == 'nonseekable':
             r = RawNS(b); return r, [], r
-        if kind == 'nonseekable-short-reads':
-            r = RawShort(b, self.short_limits); return r, [], r
+        if kind == 'nonseekable-packets':
+            r = RawPackets(b, self.bounds); return r, [], r
         if kind == 'nonseekable-nonblocking':
-            r = RawNonBlocking(b, self.nb_pattern); return r, [], r
-        if kind == 'nonseekable/absolute-positions':      # classification only
-            r = RawNS(b); return AbsPosWrapper(r), [], r
+            r = RawPackets(b, self.bounds, self.none_pattern); return r, [], r
+        if kind == 'seekable-packets':
+            r = SeekPackets(b, self.bounds); return r, [], r
+        if kind == 'seekable-nonblocking':
+            r = SeekPackets(b, self.bounds, self.none_pattern); return r, [], r
+        if kind.endswith('/absolute-positions'):          # classification only
+            _, _, r = self.open(kind.split('/')[0]); return AbsPosWrapper(r), [], r
         raise KeyError(kind)
 
 
@@ -521,7 +707,7 @@ def stream_outcome(dec, kinds, kind, spec):
                         waits += 1
                         if waits > 3:
                             return ('waits-for-more', tuple(objs))
-                    if total > 200000:
+                    if total > 100000:
                         return ('no-progress', tuple(objs))
                     continue
                 waits = 0
@@ -577,42 +763,38 @@ def nested_spec(depth):
     return t
 
 
-def nested_value(rng, depth, width, leaf):
-    spec = nested_spec(depth)
+def spec_of(desc):
+    """schema from its descriptor (stored in replay files)"""
+    if desc is None: return None
+    k = desc[0]
+    if k == 'wide': return univ.SequenceOf(componentType=univ.OctetString())
+    if k == 'doc': return Doc()
+    if k == 'deep': return nested_spec(desc[1])
+    if k == 'single': return univ.OctetString()
+    if k == 'envelope': return Envelope()
+    if k == 'setof': return univ.SetOf(componentType=univ.Integer())
+    raise KeyError(desc)
 
-    def fill(v, d):
-        if d == 0:
-            return
-        n = width if d == 1 else rng.randrange(1, 3)
-        for i in range(n):
-            if d == 1:
-                v.append(octs(rng, leaf))
-            else:
-                c = v.componentType.clone()
-                fill(c, d - 1)
-                if d - 1 >= 1 and not len(c):
-                    c.append(octs(rng, 1)) if d - 1 == 1 else None
-                v.append(c)
+
+SHAPES = ['wide', 'wide', 'doc', 'doc', 'deep', 'single', 'envelope', 'envelope', 'setof']
+
+
+def make_value(rng, target, desc=None):
+    """(spec descriptor, value, schemaless_ok) with an encoding of roughly `target` octets"""
+    if desc is None:
+        shape = rng.choice(SHAPES)
+        desc = ('deep', rng.randrange(2, 24)) if shape == 'deep' else (shape,)
+    shape, spec = desc[0], spec_of(desc)
     v = spec.clone()
-    fill(v, depth)
-    return spec, v
-
-
-def make_value(rng, target):
-    """(name, spec, value, schemaless_ok) with an encoding of roughly `target` octets"""
-    shape = rng.choice(['wide', 'wide', 'doc', 'doc', 'deep', 'single', 'envelope', 'envelope', 'setof'])
     if shape == 'wide':
-        spec = univ.SequenceOf(componentType=univ.OctetString())
-        v = spec.clone()
         el = rng.choice([1, 10, 100, 500, 1000, 3000])
         n = max(1, min(target // (el + 3), 300))
         for _ in range(n):
             v.append(octs(rng, el))
         if target > n * (el + 4):
             v.append(octs(rng, target - n * (el + 4)))
-        return shape, spec, v, True
+        return desc, v, True
     if shape == 'doc':
-        v = Doc()
         v['a'] = rng.randrange(-2 ** 40, 2 ** 40)
         n = rng.choice([0, 1, 5, 40, 150])
         per = max(0, min(3000, (target * 2 // 3) // max(n, 1) - 12))
@@ -625,39 +807,50 @@ def make_value(rng, target):
             v['b'].append(r)
         if not n:
             v['b'].clear()
-        used = len(ber_enc.encode(v['b'])) if n else 2
+        used = len(ber_enc.encode(v['b']))
         v['c'] = octs(rng, max(0, target - used - 20))
         if rng.random() < 0.5:
             for _ in range(rng.randrange(1, 20)):
                 v['d'].append(rng.randrange(-300, 70000))
         if rng.random() < 0.4:
             v['e'] = octs(rng, rng.choice([0, 3, 300]))
-        return shape, Doc(), v, False
+        return desc, v, False
     if shape == 'deep':
-        depth = rng.randrange(2, 24)
-        spec, v = nested_value(rng, depth, rng.randrange(1, 6), max(1, target // 6))
-        return shape, spec, v, True
+        # one chain down to the leaves, with a thin side branch here and there
+        width = rng.randrange(1, 6)
+        leaf = max(1, target // width - 4)
+
+        def fill(c, d, main):
+            if d == 1:
+                for _ in range(width if main else 1):
+                    c.append(octs(rng, leaf if main else rng.choice([0, 1, 30])))
+                return
+            sub = c.componentType.clone()
+            fill(sub, d - 1, main)
+            c.append(sub)
+            if main and rng.random() < 0.3:
+                side = c.componentType.clone()
+                fill(side, d - 1, False)
+                c.append(side)
+        fill(v, desc[1], True)
+        return desc, v, True
     if shape == 'single':
-        return shape, univ.OctetString(), univ.OctetString(octs(rng, target)), True
+        return desc, univ.OctetString(octs(rng, target)), True
     if shape == 'envelope':
-        inner_spec = univ.SequenceOf(componentType=univ.OctetString())
-        inner = inner_spec.clone()
+        inner = univ.SequenceOf(componentType=univ.OctetString())
         for _ in range(rng.randrange(1, 30)):
             inner.append(octs(rng, max(1, target // 20)))
-        v = Envelope()
         v['id'] = (1, 3, 6, 1, rng.randrange(0, 70000))
         v['val'] = ber_enc.encode(inner, defMode=rng.random() < 0.6)
         if rng.random() < 0.5:
             v['tail'] = octs(rng, rng.choice([0, 5, BUF + 1]))
-        return shape, Envelope(), v, False
-    spec = univ.SetOf(componentType=univ.Integer())
-    v = spec.clone()
+        return desc, v, False
     for _ in range(min(300, max(1, target // 40))):
         v.append(rng.randrange(-2 ** 64, 2 ** 64))
-    return 'setof', spec, v, True
+    return desc, v, True
 
 
-def fit(rng, spec, v, enc, target):
+def fit(v, enc, target):
     """stretch a trailing OCTET STRING so that the encoding has exactly `target` octets, if that is cheap"""
     b = enc(v)
     if not isinstance(v, univ.SequenceOf) or not isinstance(v.componentType, univ.OctetString) or len(b) + 4 > target:
@@ -709,17 +902,26 @@ def mutate(rng, b):
     return 'junk', bytes(rng.randrange(256) for _ in range(rng.randrange(1, 40)))
 
 
+def has_absurd_length(b):
+    """class predicate of finding F22: long-form length octets with a value above sys.maxsize"""
+    for i, o in enumerate(b):
+        if 0x88 <= o < 0xff and int.from_bytes(b[i + 1:i + 1 + (o & 0x7f)], 'big') > sys.maxsize:
+            return True
+    return False
+
+
 def f06_class(kind, b):
     """finding F06 can only bite where the wrapper is in use and can have dropped its cache"""
     return kind.startswith('nonseekable') and len(b) > BUF
 
 
-def compare_kinds(ctx, kinds, label, encname, dec, spec, b, variant):
+def compare_kinds(ctx, kinds, label, encname, dec, desc, b, variant):
     kinds.prepare(b)
+    spec = spec_of(desc)
     try:
         ref = decode_outcome(dec, kinds, 'bytes', spec)
         sref = stream_outcome(dec, kinds, 'bytes', spec)
-        ctx.case(('decode', encname, label, b, type(spec).__name__ if spec is not None else None), len(b) > BUF)
+        ctx.case(('decode', encname, label, b, desc), len(b) > BUF)
         ctx.stats['dec_inputs'] += 1
         ctx.stats['dec_%s' % encname] += 1
         ctx.stats['dec_size_le_buf' if len(b) <= BUF else 'dec_size_%dxbuf' % min(len(b) // BUF, 4)] += 1
@@ -728,26 +930,31 @@ def compare_kinds(ctx, kinds, label, encname, dec, spec, b, variant):
         if abs(len(b) % BUF - BUF // 2) > BUF // 2 - 4 and len(b) >= BUF - 4:
             ctx.stats['dec_size_within_3_of_k_buf'] += 1
         base_case = {'kind': 'decode', 'label': label, 'encoding': encname, 'size': len(b), 'input_hex_gz': _pack(b),
-                     'spec': type(spec).__name__ if spec is not None else None, 'variant': variant,
-                     'short_limits': kinds.short_limits, 'nb_pattern': kinds.nb_pattern}
-        for api, names, fn, refout in (('decode', Kinds.NAMES[1:], decode_outcome, ref),
-                                       ('StreamingDecoder', Kinds.NAMES[1:] + Kinds.STREAM_ONLY, stream_outcome, sref)):
-            for kind in names:
-                got = fn(dec, kinds, kind, spec)
-                ctx.stats['dec_runs'] += 1
-                if got[:3] == refout[:3]:
-                    continue
-                fid = None
-                if kind == 'nonseekable-nonblocking' and got[0] == 'crash' and got[1] == 'TypeError' and got[-1] > 0:
-                    fid = 'F05'       # None from the raw stream reached BytesIO.write
-                elif f06_class(kind, b) and kind == 'nonseekable':
-                    if fn(dec, kinds, 'nonseekable/absolute-positions', spec)[:3] == refout[:3]:
-                        fid = 'F06'   # disappears once positions stay absolute
-                elif f06_class(kind, b) and variant == 'Cur':
-                    fid = 'F06'
-                ctx.prop_fail('%s gives a different result for the same octets presented as %s%s' % (
-                    api, kind, {'F06': ' (cache dropped, positions renumbered)', 'F05': ' (None from raw.read)', None: ''}[fid]),
-                    dict(base_case, api=api, substrate=kind, from_bytes=_hide(refout), from_substrate=_hide(got)), finding=fid)
+                     'spec': list(desc) if desc else None, 'variant': variant,
+                     'packet_sizes': kinds.packet_sizes, 'none_pattern': kinds.none_pattern}
+        runs = [('decode', k, 'bytes', decode_outcome, ref) for k in Kinds.NAMES[1:]] + \
+               [('StreamingDecoder', k, 'bytes', stream_outcome, sref) for k in Kinds.NAMES[1:]] + \
+               [('StreamingDecoder', k, twin, stream_outcome, None) for k, twin in Kinds.STREAM_ONLY]
+        for api, kind, against, fn, refout in runs:
+            if refout is None:
+                refout = fn(dec, kinds, against, spec)
+                ctx.stats['dec_%s_outcome_%s' % (against, refout[0])] += 1
+            got = fn(dec, kinds, kind, spec)
+            ctx.stats['dec_runs'] += 1
+            if got[:3] == refout[:3]:
+                continue
+            fid = None
+            if kind == 'nonseekable-nonblocking' and got[0] == 'crash' and got[1] == 'TypeError' \
+                    and isinstance(got[-1], int) and got[-1] > 0:
+                fid = 'F05'       # None from the raw stream reached BytesIO.write
+            elif ('crash', 'OverflowError') in (got[:2], refout[:2]) and has_absurd_length(b):
+                fid = 'F22'       # length >= 2^63 handed to read(): substrate kinds differ in how they take it
+            elif f06_class(kind, b):
+                if fn(dec, kinds, kind + '/absolute-positions', spec)[:3] == refout[:3]:
+                    fid = 'F06'   # disappears once positions stay absolute
+            ctx.prop_fail('%s gives a different result for the same octets presented as %s than as %s%s' % (
+                api, kind, against, {'F06': ' (cache dropped, positions renumbered)', 'F05': ' (None from raw.read)', 'F22': ' (length >= 2^63 handed to read())', None: ''}[fid]),
+                dict(base_case, api=api, substrate=kind, against=against, from_reference=_hide(refout), from_substrate=_hide(got)), finding=fid)
         return ref, sref
     finally:
         kinds.cleanup()
@@ -758,41 +965,39 @@ def decoding(ctx, variant):
     kinds = Kinds(os.path.join(core.WORK, 'c11_%d' % os.getpid()), rng)
     try:
         targets = [BUF * k + d for k in (1, 2, 3) for d in (-3, -1, 0, 1, 2)] + [10, 300, BUF // 2, 4 * BUF + 9]
-        n = ctx.n(60, 700)
-        for i in range(n):
+        for i in range(ctx.n(150, 1500)):
             target = targets[i % len(targets)] if rng.random() < 0.8 else rng.randrange(2, 4 * BUF)
-            shape, spec, v, schemaless = make_value(rng, target)
+            desc, v, schemaless = make_value(rng, target)
             encname, dec, enc = ENCODINGS[i % len(ENCODINGS)] if rng.random() < 0.7 else rng.choice(ENCODINGS)
             try:
-                b = fit(rng, spec, v, enc, target)
+                b = fit(v, enc, target)
             except error.PyAsn1Error:
                 ctx.stats['dec_encoder_refused'] += 1
                 continue
-            if len(b) > 45000:
-                b = enc(make_value(rng, BUF + 1)[2]) if False else b[:0]
-            if not b:
+            if not b or len(b) > 45000:
+                ctx.stats['dec_skipped_too_long'] += 1
                 continue
-            ctx.stats['dec_shape_' + shape] += 1
-            use_spec = spec if (not schemaless or rng.random() < 0.6) else None
-            compare_kinds(ctx, kinds, shape, encname, dec, use_spec, b, variant)
+            ctx.stats['dec_shape_' + desc[0]] += 1
+            use = desc if (not schemaless or rng.random() < 0.6) else None
+            compare_kinds(ctx, kinds, desc[0], encname, dec, use, b, variant)
             r = rng.random()
             if r < 0.35:      # several encodings one after another
                 parts = [b]
                 for _ in range(rng.randrange(1, 4)):
-                    s2, sp2, v2, _ = make_value(rng, rng.choice([5, 200, BUF // 3, BUF + 1]))
-                    if type(sp2) is type(spec) and (use_spec is None or shape in ('wide', 'single', 'doc', 'envelope', 'setof')):
-                        try: parts.append(enc(v2))
-                        except error.PyAsn1Error: pass
-                if len(parts) == 1:
-                    parts.append(b[:min(len(b), 3 * BUF)] if len(b) < 2 * BUF else enc(univ.OctetString(b'zz')) if use_spec is None else b[:0])
+                    try:
+                        parts.append(enc(make_value(rng, rng.choice([5, 200, BUF // 3, BUF + 1]), desc)[1]))
+                    except error.PyAsn1Error:
+                        pass
                 cat = b''.join(parts)
-                if len(cat) <= 60000 and len(cat) > len(b):
-                    compare_kinds(ctx, kinds, shape + '+concatenated', encname, dec, use_spec, cat, variant)
+                if len(parts) > 1 and len(cat) <= 60000:
+                    ctx.stats['dec_concatenated'] += 1
+                    compare_kinds(ctx, kinds, desc[0] + '+concatenated', encname, dec, use, cat, variant)
             elif r < 0.85:    # invalid / truncated
                 how, bad = mutate(rng, b)
                 if bad:
-                    compare_kinds(ctx, kinds, shape + '+' + how, encname, dec, use_spec, bad, variant)
-        ctx.sample({'decode': 'kinds %s; stream-only kinds %s' % (Kinds.NAMES, Kinds.STREAM_ONLY)})
+                    ctx.stats['dec_mutation_' + how] += 1
+                    compare_kinds(ctx, kinds, desc[0] + '+' + how, encname, dec, use, bad, variant)
+        ctx.sample({'decode': 'kinds %s; StreamingDecoder-only pairs %s' % (Kinds.NAMES, Kinds.STREAM_ONLY)})
     finally:
         kinds.close()
 
@@ -811,9 +1016,13 @@ def run(ctx):
                 '(b) BER (definite, indefinite, chunked), CER and DER encodings of wide / deep / mixed SEQUENCE, SEQUENCE OF, SET OF, ANY '
                 'envelopes and single OCTET STRINGs with total sizes k*BUF-3..k*BUF+2 (k=1,2,3) and others, their concatenations, truncations '
                 'and corruptions, decoded from bytes, BytesIO, OctetString, Any, a file, gzip and zip readers, a non-seekable reader '
-                '(decode() and StreamingDecoder) and from short-reading and non-blocking non-seekable readers (StreamingDecoder only, '
-                'underrun notifications skipped); non-trivial = input longer than the buffer')
+                '(decode() and StreamingDecoder); plus non-seekable readers whose data arrives in packets (short reads) and which answer None '
+                'now and then (non-blocking), each compared through StreamingDecoder (underrun notifications skipped) with a seekable '
+                'stream that has the same delivery schedule; non-trivial = input longer than the buffer')
+    f05 = impl_f05_fixed()
+    ctx.stats['implementation_has_F05_fix_%s' % f05] += 1
     histories(ctx, variant)
+    packet_histories(ctx, variant, f05)
     decoding(ctx, variant)
 
 
@@ -837,33 +1046,22 @@ def replay(data):
     if case.get('kind') == 'decode':
         import random
         b = _unpack(case['input_hex_gz'])
-        decs = {n: d for n, d, _ in ENCODINGS}
-        dec = decs[case['encoding']]
-        spec = {'Doc': Doc, 'Envelope': Envelope, 'OctetString': univ.OctetString, 'NoneType': None}.get(case['spec'] or 'NoneType')
-        if case['spec'] == 'SequenceOf':
-            depth = 0
-            # the nesting depth is recovered from the input: count leading constructed SEQUENCE headers
-            v, _ = ber_dec.decode(b[:0] or b) if False else (None, None)
-        if case['spec'] in ('SequenceOf', 'SetOf'):
-            print('note: schema of class %s is rebuilt without nesting information; replaying schemaless' % case['spec'])
-            spec = None
-        else:
-            spec = spec() if spec else None
+        dec = {n: d for n, d, _ in ENCODINGS}[case['encoding']]
+        spec = spec_of(tuple(case['spec']) if case.get('spec') else None)
         kinds = Kinds(os.path.join(core.WORK, 'c11_replay_%d' % os.getpid()), random.Random(0))
         kinds.prepare(b)
-        kinds.short_limits = case.get('short_limits', kinds.short_limits)
-        kinds.nb_pattern = case.get('nb_pattern', kinds.nb_pattern)
+        kinds.set_schedule(case.get('packet_sizes', kinds.packet_sizes), case.get('none_pattern', kinds.none_pattern))
         bad = 0
         try:
-            for api, names, fn in (('decode', Kinds.NAMES, decode_outcome),
-                                   ('StreamingDecoder', Kinds.NAMES + Kinds.STREAM_ONLY, stream_outcome)):
-                ref = None
-                for kind in names:
-                    got = fn(dec, kinds, kind, spec)
-                    if ref is None:
-                        ref = got
-                    print('%-17s %-26s %s %s' % (api, kind, json.dumps(_hide(got), default=repr)[:300], '' if got[:3] == ref[:3] else '<-- differs'))
-                    bad += got[:3] != ref[:3]
+            runs = [('decode', k, 'bytes', decode_outcome) for k in Kinds.NAMES[1:]] + \
+                   [('StreamingDecoder', k, 'bytes', stream_outcome) for k in Kinds.NAMES[1:]] + \
+                   [('StreamingDecoder', k, twin, stream_outcome) for k, twin in Kinds.STREAM_ONLY]
+            for api, kind, against, fn in runs:
+                ref, got = fn(dec, kinds, against, spec), fn(dec, kinds, kind, spec)
+                same = got[:3] == ref[:3]
+                bad += not same
+                print('%-17s %-24s vs %-21s %s' % (api, kind, against, 'same: ' + json.dumps(_hide(got), default=repr)[:120] if same else
+                      'DIFFERENT\n     %s: %s\n     %s: %s' % (against, json.dumps(_hide(ref), default=repr)[:600], kind, json.dumps(_hide(got), default=repr)[:600])))
         finally:
             kinds.cleanup(); kinds.close()
         return 1 if bad else 0
